@@ -11,6 +11,8 @@ R04.3 (tables) per item class: labels non-empty and pairwise distinct; all attri
 R04.4 (tables) representation codes used in declarations and defaults are defined by the standard and valid for their
       attribute class.
 R04.5 an EFLR set without objects produces an empty body (=> no record; the segmenter yields nothing for S = 0).
+R04.7 (shared, = C02 R02.1/2/4/5 + C10 R10.1-3) the transport below the records: segments partition each body in order with
+      correct bracketing and padding, the output buffer and the byte writer hand on exactly those bytes.
 """
 
 from __future__ import annotations
@@ -100,6 +102,8 @@ def run(chk):
     chk.guard(r04_1_other_components, chk)
     chk.guard(r04_3_4_tables, chk)
     chk.guard(r04_6_emitters, chk)
+    from ._layout import transport_integrity
+    chk.guard(transport_integrity, chk, "R04.7")
 
 
 # ---------------------------------------------------------------------------------------------------- R04.1 / R04.2
